@@ -8,8 +8,8 @@
                                   else: s4
 A match whose patterns bind names (`case [a, b]:`, `case Foo(x=y):`, `case str() as s:`) is left alone (the CFG builds
 opaque tests for it). Subject expressions that are not a plain name / attribute are evaluated once into a temporary.
-Literal, singleton, class (without sub-patterns), or-patterns, wildcard and fixed-length sequence patterns over a tuple
-subject are translated; guards become `and guard`. Python's semantics for these patterns are exactly these tests
+Literal, singleton, class (without sub-patterns), or-patterns, wildcard, fixed-length sequence patterns over a tuple
+subject and sequence patterns of literals / wildcards (with at most one `*_`) over any subject are translated; guards become `and guard`. Python's semantics for these patterns are exactly these tests
 (class pattern without arguments = isinstance; literal = ==; None/True/False = is)."""
 from __future__ import annotations
 
@@ -38,6 +38,25 @@ def _test(subject, pat):
         parts = [p for p in parts if not (isinstance(p, ast.Constant) and p.value is True)]
         if not parts:
             return ast.Constant(value=True)
+        return parts[0] if len(parts) == 1 else ast.BoolOp(op=ast.And(), values=parts)
+    if isinstance(pat, ast.MatchSequence) and isinstance(subject, (ast.Name, ast.Attribute)):
+        # a sequence pattern without bindings over a subject held in a name: `case ('context', *_)` is
+        # len(S) >= 1 and S[0] == 'context' (the isinstance(S, Sequence) part of the semantics is dropped: the rules only
+        # look at which elements are compared with what)
+        stars = [i for i, p in enumerate(pat.patterns) if isinstance(p, ast.MatchStar)]
+        if len(stars) > 1 or any(pat.patterns[i].name is not None for i in stars):
+            raise _No
+        k = len(pat.patterns) - len(stars)
+        ln = ast.Call(func=ast.Name(id='len', ctx=ast.Load()), args=[copy.deepcopy(subject)], keywords=[])
+        parts = [ast.Compare(left=ln, ops=[ast.GtE() if stars else ast.Eq()], comparators=[ast.Constant(value=k)])]
+        for i, p in enumerate(pat.patterns):
+            if isinstance(p, ast.MatchStar):
+                continue
+            idx = i if not stars or i < stars[0] else i - len(pat.patterns)
+            el = ast.Subscript(value=copy.deepcopy(subject), slice=ast.Constant(value=idx), ctx=ast.Load())
+            t = _test(el, p)
+            if not (isinstance(t, ast.Constant) and t.value is True):
+                parts.append(t)
         return parts[0] if len(parts) == 1 else ast.BoolOp(op=ast.And(), values=parts)
     raise _No
 
